@@ -13,6 +13,7 @@ CS = 'src/changeset.rs'
 def build():
     u = _join.build()
     u.name = 'changeset'
+    u.prelude = u.prelude + [('prelude/dense_stub.rs', 'private')]
     u.spec = u.spec + ['changeset/spec.rs']
     u.files = u.files + [CS]
     u.struct(CS, ['struct ChangeSet'], attr='#[verifier::reject_recursive_types(T)]')
